@@ -10,7 +10,7 @@ coq_makefile -f _CoqProject -o Makefile >/dev/null 2>&1
 timeout 7200 make -k -j14 >/verif/work/setup_make.log 2>&1 || echo "some Coq files did not build (see work/setup_make.log); the checks report what is broken"
 cd /verif
 for mode in jit boundscheck; do
-  env NUMBA_CACHE_DIR=/verif/.cache/numba/$mode PYTHONPATH=/repo $( [ $mode = boundscheck ] && echo NUMBA_BOUNDSCHECK=1 ) \
+  env NUMBA_CACHE_DIR=$(/venv/bin/python -c "import sys; sys.path.insert(0,'/verif/harness'); import impl; print(impl.numba_cache_dir('$mode'))") PYTHONPATH=/repo $( [ $mode = boundscheck ] && echo NUMBA_BOUNDSCHECK=1 ) \
     timeout 1800 /venv/bin/python harness/warm.py >/verif/work/warm_$mode.log 2>&1 &
 done
 wait
